@@ -5,7 +5,7 @@ cd /repo || exit 2
 git apply --check "$PATCH" || { echo "PATCH DOES NOT APPLY"; exit 2; }
 git apply "$PATCH"
 cd /verif
-timeout 1500 bin/vcheck -p $P -tier $TIER > /tmp/try_seed.out 2>&1
+timeout 1100 bin/vcheck -p $P -tier $TIER > /tmp/try_seed.out 2>&1
 RC=$?
 grep -E "^VIOLATION|^KNOWN|^INCONCLUSIVE|tier=" /tmp/try_seed.out | cut -c1-260 | head -12
 echo "exit=$RC"
